@@ -503,6 +503,58 @@ def note_features(cases):
                 _tally(FEATURE, "several_sections")
 
 
+FN_TARGETS = [1, 2, 100, 254, 255, 256, 257, 1022, 1023, 1024, 1025, 1026, 2047, 2048, 3000, 4095, 4096, 4097, 9000]
+PW_DIRS = {"alice": "/home/alice", "bob": "/b"}
+
+
+def fn_case(rng):
+    """CF_FILE values starting with `~`: $HOME short / long / empty / unset, `~`, `~/rest`, `~user`,
+    `~user/rest`, unknown user; expansion lengths around 255/256, 1023/1024/1025, 4095/4096 and
+    a few thousand; through cf_set and through a (long) line of a loaded file; cf_get gives the
+    whole expansion back (the hex text carries its length)."""
+    ops = ["schema 0"]
+    hk = rng.below(10)
+    if hk == 0:
+        home, ops = "/home/uid", ops + ["home nil"]              # getpwuid(getuid())
+    elif hk == 1:
+        home, ops = "", ops + ["home -"]
+    elif hk < 5:
+        home = rng.choice(["/h", "/home/u0", "/home/x y/"])
+        ops.append("home " + hx(home))
+    else:
+        n = rng.choice([200, 250, 254, 255, 256, 1000, 1020, 1023, 1024, 1025, 4090, 4096])
+        home = "/" + "H" * (n - 1)
+        ops.append("home " + hx(home))
+    for _ in range(1 + rng.below(3)):
+        form = rng.below(10)
+        if form < 5:
+            base, prefix = home, "~"
+        elif form < 7:
+            u = rng.choice(["alice", "bob"])
+            base, prefix = PW_DIRS[u], "~" + u
+        elif form == 7:
+            base, prefix = None, "~carol"                           # unknown user: the setter fails
+        else:
+            base, prefix = home, "~"
+        t = rng.choice(FN_TARGETS) + rng.choice([0, 0, 0, -1, 1])
+        if form == 8:
+            val = prefix                                            # `~` / `~user` alone
+        else:
+            restlen = max(0, t - (len(base) if base is not None else 6) - 1)
+            val = prefix + "/" + "".join(rng.choice("abcxyz019._-") for _ in range(restlen))
+        if rng.chance(1, 3):
+            ops.append("file %s %s" % (hx("fn.ini"), hx("[main]\nf = " + val + rng.choice(["\n", " \n", "\r\n", ""]))))
+            ops.append("load %s" % hx("fn.ini"))
+        else:
+            ops.append("set %s %s %s" % (hx("main"), hx("f"), hx(val)))
+        ops.append("get %s %s" % (hx("main"), hx("f")))
+        if rng.chance(1, 4):
+            ops.append("setself %s %s %d" % (hx("main"), hx("f"), rng.choice([0, 1])))
+            ops.append("get %s %s" % (hx("main"), hx("f")))
+    ops.append("dump")
+    return ops
+
+
 def monitor(lines, c_lines):
     """property monitor on the implementation's own output (independent of the model):
     nothing may stay allocated, a loaded buffer must be intact when freed, and in a
@@ -588,7 +640,9 @@ def run(ck):
                       "to depth 12, self-includes, missing files), the same with 1-3 byte mutations (incl. NUL), and raw bytes; "
                       "handler refusing the n-th event.  cf cases: histories of schema/loaded/home/file/load/set/get/dump over "
                       "four schemas (absolute, relative with base_lookup, dynamic set_key, relative with NULL base) with typed "
-                      "values at boundaries; `setself` feeds the pointer cf_get returned (+offset) back into cf_set, so the new "
+                      "values at boundaries; filename cases: `~`, `~/rest`, `~user[/rest]`, unknown user, with $HOME short / "
+                      "long (200..4096 bytes) / empty / unset and expansion lengths around 255/256, 1023/1024/1025, 4095/4096, "
+                      "9000, through cf_set and through a long line of a loaded file; `setself` feeds the pointer cf_get returned (+offset) back into cf_set, so the new "
                       "value aliases the stored one.  A case counts as non-trivial when it is distinct and contains a parse/load/set.")
     if not ck.quick():
         ck.leanchecker(PROP_MODULES + ["UsualProofs.C18." + m for m in
@@ -625,7 +679,9 @@ def run(ck):
     go(cc, "cf")
     rc = [rt_case(rng) for _ in range(n // 3)]
     go(rc, "roundtrip")
-    for c in (pc[0], pc[1], cc[0], rc[0]):
+    fc = [fn_case(rng) for _ in range(n // 8)]
+    go(fc, "filename")
+    for c in (pc[0], pc[1], cc[0], rc[0], fc[0]):
         ck.sample(c[:10])
     ck.cov["op_histogram"] = hist
     ck.cov["branch_distribution"] = dict(sorted(BRANCH.items()))
